@@ -1,6 +1,7 @@
 package props
 
 import (
+	"bytes"
 	"errors"
 	"fmt"
 	"math/rand"
@@ -31,6 +32,8 @@ func init() {
 	sim.RegisterKind("tr-completed-twice", "C12")
 	sim.RegisterKind("tr-left-in-table", "C12")
 	sim.RegisterKind("tr-unexpected-result", "C12")
+	sim.RegisterKind("tr-tid-reused", "C12")
+	sim.RegisterKind("tr-foreign-response", "C12")
 }
 
 const maxRtx = 7
@@ -782,6 +785,11 @@ func runC12(t *testing.T, rng *rand.Rand, rec *sim.Rec, tier string, caseNo int)
 
 		return
 	}
+	if (caseNo-lossCases)%9 == 5 {
+		runC12RealClientDuplicates(t, rng, rec)
+
+		return
+	}
 	x := newC12(t, rng, rec, rto)
 	defer x.close()
 	switch (caseNo - lossCases) % 9 {
@@ -804,6 +812,73 @@ func runC12(t *testing.T, rng *rand.Rand, rec *sim.Rec, tier string, caseNo int)
 	default:
 		x.caseLoss(rng.Intn(128), rng.Intn(5))
 	}
+}
+
+// runC12RealClientDuplicates: the whole client (turn.Client) on a network that delivers every
+// response twice, the twin 20-400 ms later, while the Allocate success is held back longer than
+// that: the late twin of the 401 arrives while the authenticated Allocate is pending. A response
+// completes the transaction whose id it carries and no other; different requests therefore never
+// share an id (the wire log shows every request the client wrote).
+func runC12RealClientDuplicates(t *testing.T, rng *rand.Rand, rec *sim.Rec) {
+	n := simnet.New()
+	defer n.CloseAll()
+	srv, err := sim.NewScriptedServer(n, sim.ServerIP4, 3478)
+	if err != nil {
+		t.Fatal(err)
+	}
+	defer srv.Close()
+	dup := time.Duration(20+rng.Intn(380)) * time.Millisecond
+	ts := &turnScript{rng: rand.New(rand.NewSource(rng.Int63())), relay: &net.UDPAddr{IP: sim.RelayIP4, Port: 50000}, nonce: "nonce-0", maxStale: 2,
+		permW: [5]int{6, 0, 1, 2, 0}, bindW: [5]int{6, 0, 1, 2, 0}, noSilence: true, dup: dup, allocDelay: dup + time.Duration(10+rng.Intn(300))*time.Millisecond}
+	srv.SetHandler(ts.handler)
+	rc, err := sim.NewRealClient(n, net.IPv4(10, 1, 0, 1).To4(), 5000, "10.0.0.1:3478", "alice", "pw-a", "verif.test", time.Second, sim.NewLogSink(), nil)
+	if err != nil {
+		t.Fatal(err)
+	}
+	defer func() { _ = rc.Conn.Close() }()
+	defer rc.Client.Close()
+	if err := rc.Client.Listen(); err != nil {
+		t.Fatal(err)
+	}
+	conn, err := rc.Client.Allocate()
+	if err != nil {
+		rec.Violate("tr-foreign-response", "allocate", "Allocate on a duplicating network (twin +%v, success +%v) failed: %v - the server answered the authenticated request with success", dup, ts.allocDelay, err)
+	} else {
+		if conn.LocalAddr().String() != ts.relay.String() {
+			rec.Violate("tr-foreign-response", "relayed-address", "Allocate returned relayed address %v, the server granted %v", conn.LocalAddr(), ts.relay)
+		}
+		peers := 1 + rng.Intn(4)
+		for i := 0; i < peers*3; i++ {
+			_, _ = conn.WriteTo([]byte(fmt.Sprintf("dup-%d", i)), &net.UDPAddr{IP: net.IPv4(10, 2, 0, byte(1+i%peers)).To4(), Port: 7000 + i%peers})
+			time.Sleep(time.Duration(rng.Intn(700)) * time.Millisecond)
+		}
+		if _, err := rc.Client.SendBindingRequest(); err != nil {
+			rec.Violate("tr-foreign-response", "binding", "Binding request on a duplicating network failed: %v", err)
+		}
+		_ = conn.Close()
+		time.Sleep(20 * time.Second)
+	}
+	seen := map[[12]byte][]byte{}
+	reqs := 0
+	for _, ev := range srv.Log() {
+		if ev.Dir != "in" || ev.Msg == nil || ev.Msg.Class != wire.ClassRequest {
+			continue
+		}
+		reqs++
+		if first, ok := seen[ev.Msg.TID]; ok && !bytes.Equal(first, ev.Raw) {
+			rec.Violate("tr-tid-reused", fmt.Sprintf("method=%x", ev.Msg.Method), "two different requests (method %x, %d and %d bytes) carry the same transaction id %x", ev.Msg.Method, len(first), len(ev.Raw), ev.Msg.TID)
+
+			break
+		}
+		seen[ev.Msg.TID] = ev.Raw
+	}
+	if n := rc.Client.VerifPendingTransactions(); n != 0 {
+		rec.Violate("tr-left-in-table", "real-client-duplicates", "%d transactions left in the table after the run", n)
+	}
+	rec.Ev("real-client-on-duplicating-network")
+	rec.EvN("real-client-requests-seen", reqs)
+	rec.FP("real-client-duplicates/requests=%d", min(reqs, 12))
+	rec.SetSample(map[string]any{"kind": "real-client-duplicates", "twin_after": dup.String(), "allocate_success_after": ts.allocDelay.String(), "requests": reqs})
 }
 
 func init() {
